@@ -1,28 +1,35 @@
 import Mps.Json
 import Mps.Drv.Frame
+import Mps.Drv.Handler
 /-
   mpsdriver: reads the harness' JSON lines on stdin, answers one line per operation with what
   the MODEL says: {"id":N,"model":{...}}. Core-only (no Mathlib below this file).
 -/
 open Lean Mps
 
-def dispatch (suite op : String) (inp : Json) : Json :=
-  match suite with
-  | "frame" => Mps.Drv.Frame.handle op inp
-  | _ => jobj [("error", "unknown suite")]
+structure DState where
+  handler : Mps.Drv.Handler.Store := []
 
-partial def loop (hin : IO.FS.Stream) (hout : IO.FS.Stream) : IO Unit := do
+def dispatch (st : DState) (suite op : String) (inp : Json) : DState × Json :=
+  match suite with
+  | "frame" => (st, Mps.Drv.Frame.handle op inp)
+  | "handler" | "handlerconc" => let (h, j) := Mps.Drv.Handler.handle st.handler op inp; ({ st with handler := h }, j)
+  | _ => (st, jobj [("error", "unknown suite")])
+
+partial def loop (hin : IO.FS.Stream) (hout : IO.FS.Stream) (st : DState) : IO Unit := do
   let line ← hin.getLine
   if line.isEmpty then return ()
   match Json.parse line with
-  | .error e => hout.putStrLn (jobj [("id", (0 : Nat)), ("error", e)]).compress
+  | .error e =>
+    hout.putStrLn (jobj [("id", (0 : Nat)), ("error", e)]).compress
+    loop hin hout st
   | .ok j =>
     let id := jget j "id"
-    let out := dispatch (jstr j "suite") (jstr j "op") (jget j "in")
+    let (st', out) := dispatch st (jstr j "suite") (jstr j "op") (jget j "in")
     hout.putStrLn (Json.mkObj [("id", id), ("model", out)]).compress
-  loop hin hout
+    loop hin hout st'
 
 def main : IO Unit := do
   let hin ← IO.getStdin
   let hout ← IO.getStdout
-  loop hin hout
+  loop hin hout {}
